@@ -577,7 +577,7 @@ inline int run_batch(Engine& e, const BatchOptions& o) {
 //   <engine> --replay file [--verbose]      exit 1 iff the plan's violation class is observed, 0 if nothing, 2 otherwise
 //   <engine> --gen --mode M --seed S        print the plan for one seed
 inline int engine_main(Engine& e, int argc, char** argv) {
-    BatchOptions o; std::string replay; bool verbose = false, gen = false, one = false;
+    BatchOptions o; std::string replay, exec_plan; bool verbose = false, gen = false, one = false;
     o.outdir = "/verif/replays"; o.tier = "quick"; o.property = "CXX";
     if (getenv("VERIF_SEED")) o.seed = strtoull(getenv("VERIF_SEED"), 0, 0);
     for (int i = 1; i < argc; ++i) {
@@ -587,9 +587,12 @@ inline int engine_main(Engine& e, int argc, char** argv) {
         else if (a == "--budget-s") o.budget_s = atof(nx().c_str()); else if (a == "--tier") o.tier = nx();
         else if (a == "--outdir") o.outdir = nx(); else if (a == "--property") o.property = nx();
         else if (a == "--replay") replay = nx(); else if (a == "--verbose") verbose = true; else if (a == "--gen") gen = true;
-        else if (a == "--hash-out") o.hash_out = nx(); else if (a == "--one") one = true; else if (a == "--max-viol") o.max_viol = atoi(nx().c_str());
+        else if (a == "--hash-out") o.hash_out = nx(); else if (a == "--exec-plan") exec_plan = nx(); else if (a == "--one") one = true; else if (a == "--max-viol") o.max_viol = atoi(nx().c_str());
         else { fprintf(stderr, "unknown argument %s\n", a.c_str()); return 2; }
     }
+    if (!exec_plan.empty()) {   // execute a plan in this very process (for valgrind): exit 1 iff the oracle reports a violation
+        Plan p; if (!Plan::load(exec_plan, p)) { fprintf(stderr, "cannot load plan %s\n", exec_plan.c_str()); return 2; }
+        RunStats st; Trace tr; Verdict v = guarded_execute(e, p, st, tr); printf("exec-plan: viol=%d class=%s detail=%s\n", v.viol, v.cls.c_str(), v.detail.c_str()); return v.viol ? 1 : 0; }
     if (gen) { Plan p = e.generate(o.seed, o.mode, o.tier); fputs(p.text().c_str(), stdout); return 0; }
     if (one) {   // run one raw seed in-process with trace
         Plan p = e.generate(o.seed, o.mode, o.tier); RunStats st; Trace tr; tr.keep = verbose;
